@@ -105,6 +105,24 @@ def gen_case(seed, idx, tier="quick"):
                 cc = rng.randint(b + 1, d - 1)
                 f["interval_starts"], f["interval_ends"] = [a, b], [d, cc]
     if rng.random() < 0.15:
+        # sequence GUIDs (a rarely used field every level carries): present on a seed-chosen subset of the levels, so that a
+        # level has one while its container or its members have none
+        sg = "5a1e0c3e-8f10-4c0a-9d55-0d1f6a7b8c9d"
+        if rng.random() < 0.5:
+            spec["sequence_guid"] = sg
+        for g in spec["genes"]:
+            if rng.random() < 0.5:
+                g["sequence_guid"] = sg
+            for t in g["transcripts"]:
+                if rng.random() < 0.5:
+                    t["sequence_guid"] = sg
+        for c in spec["feature_collections"]:
+            if rng.random() < 0.5:
+                c["sequence_guid"] = sg
+            for f in c["feature_intervals"]:
+                if rng.random() < 0.5:
+                    f["sequence_guid"] = sg
+    if rng.random() < 0.15:
         # the annotation calls its sequence by another name than the sequence object it was placed on does
         # (annotation says chr1, the chromosome / chunk was cut from accession NC_...)
         par["genome"]["id"] = rng.choice(["NC_000001.11", "contig_7", "CHR1"])
